@@ -14,7 +14,9 @@ import (
 	"time"
 
 	"github.com/andybalholm/brotli"
+	"github.com/bfenetworks/bfe/bfe_basic"
 	"github.com/bfenetworks/bfe/bfe_http"
+	"github.com/bfenetworks/bfe/bfe_module"
 
 	"verifharness/e2e"
 	"verifharness/ref/http1"
@@ -65,6 +67,25 @@ type c54XRound struct {
 	Inter    []c54XReq   `json:"interleaved"`
 	Burst1   []c54XReq   `json:"burst1"`
 	Burst2   []c54XReq   `json:"burst2"`
+}
+
+// variant returns a copy of the round with fresh request ids (replay: the round is repeated).
+func (x *c54XRound) variant(i int) *c54XRound {
+	y := *x
+	sfx := fmt.Sprintf("r%d", i)
+	y.Aborters = append([]c54XAbort(nil), x.Aborters...)
+	for k := range y.Aborters {
+		y.Aborters[k].ID += sfx
+	}
+	re := func(qs []c54XReq) []c54XReq {
+		out := append([]c54XReq(nil), qs...)
+		for k := range out {
+			out[k].ID += sfx
+		}
+		return out
+	}
+	y.Inter, y.Burst1, y.Burst2 = re(x.Inter), re(x.Burst1), re(x.Burst2)
+	return &y
 }
 
 func (x *c54XRound) host() string {
@@ -287,6 +308,32 @@ type c54XEnv struct {
 	r    *vkit.Run
 	addr string
 	be   *c54XBackend
+	errs sync.Map // request id -> what bfe itself recorded for the request when it finished (witness only)
+}
+
+// noteFinish is bfe's HandleRequestFinish callback for the requests of this family.
+func (e *c54XEnv) noteFinish(req *bfe_basic.Request, res *bfe_http.Response) int {
+	if req != nil && req.HttpRequest != nil {
+		if id := req.HttpRequest.Header.Get("X-Id"); strings.HasPrefix(id, "x") {
+			msg := "no error recorded"
+			if req.ErrCode != nil {
+				msg = req.ErrCode.Error() + ": " + req.ErrMsg
+			}
+			e.errs.Store(id, msg)
+		}
+	}
+	return bfe_module.BfeHandlerGoOn
+}
+
+// bfeSaid returns what bfe recorded for request id (waits a moment: the callback runs after the response was sent).
+func (e *c54XEnv) bfeSaid(id string) string {
+	for i := 0; i < 40; i++ {
+		if v, ok := e.errs.Load(id); ok {
+			return v.(string)
+		}
+		time.Sleep(50 * time.Millisecond)
+	}
+	return "request finish callback not seen"
 }
 
 func (x *c54XRound) request(q *c54XReq, first int) []byte {
@@ -398,6 +445,7 @@ func (e *c54XEnv) good(x *c54XRound, q *c54XReq, phase string) {
 	if rej != nil {
 		r.CaseS(key, false)
 		r.Count("x_wellbehaved_wrong", 1)
+		w["bfe_recorded_for_this_request"] = e.bfeSaid(q.ID)
 		r.Violation("client-stream-not-a-response:"+rej.Class+":after-aborted-neighbour", fmt.Sprintf("%v", rej), w)
 		return
 	}
@@ -436,6 +484,7 @@ func (e *c54XEnv) good(x *c54XRound, q *c54XReq, phase string) {
 	switch {
 	case derr != nil:
 		r.Count("x_wellbehaved_wrong", 1)
+		w["bfe_recorded_for_this_request"] = e.bfeSaid(q.ID)
 		r.Violation("compressed-body-does-not-decompress:"+ce+":after-aborted-neighbour", fmt.Sprintf("%v (wire body %d bytes, %d bytes decoded before the error; %s)", derr, len(resp.Body), len(dec), phase), w)
 	case !bytes.Equal(dec, want):
 		what := fmt.Sprintf("decompressed %d bytes, backend sent %d (%s)", len(dec), len(want), phase)
@@ -443,6 +492,8 @@ func (e *c54XEnv) good(x *c54XRound, q *c54XReq, phase string) {
 			what += fmt.Sprintf("; the decoded body starts with the body of request %q", clip(string(dec[:i]), 40))
 		}
 		r.Count("x_wellbehaved_wrong", 1)
+		w["bfe_recorded_for_this_request"] = e.bfeSaid(q.ID)
+		what += "; bfe recorded for this request: " + w["bfe_recorded_for_this_request"].(string)
 		r.Violation("decompressed-body-differs:"+ce+":after-aborted-neighbour", what, w)
 	}
 	r.Count("x_wellbehaved_checked["+phase+"]", 1)
